@@ -1,4 +1,4 @@
-//@@ unit c20_buffers properties=C20
+//@@ unit c20_buffers properties=C20 bounded=buffers.stay_within_their_byte_bound_and_keep_the_newest_text
 #![allow(unused_imports, dead_code, unused_variables, unused_mut)]
 use vstd::prelude::*;
 use vstd::utf8::*;
